@@ -21,7 +21,7 @@ REQUIRED = ('wrapper_calls', 'signatures', 'repeat_calls_served_from_cache', 'ke
             'expire_zero_cases', 'falsy_results', 'decorator_cache', 'decorator_fanout', 'decorator_index',
             'decorator_django', 'decorator_stampede', 'derived_name_cases', 'contended_first_calls',
             'decorator_objects_reused', 'stacked_memoizations', 'repeats_with_keywords_reordered', 'failing_function_cases', 'calls_beside_an_early_recomputation',
-            'decorator_options_passed_by_position', 'colliding_keyword_names')
+            'decorator_options_passed_by_position', 'colliding_keyword_names', 'recomputed_entries_inspected')
 ASSUMPTIONS = ('two calls are "the same arguments" when positional/keyword binding matches and values are equal under == '
                '(and have equal types when typed); ignored positions/names are removed first',
                'memoize_stampede: the probe runs in ~0 virtual time so early recomputation has probability ~0')
@@ -369,6 +369,14 @@ def stampede_recomputation(dc, sc, res, label):
                         release.set()
                         for t in recomputing:
                             t.join(10)
+                    # the entry written by the early recomputation lives as long as any other entry of the decorator
+                    key = w.__cache_key__(*first, **fkw)
+                    pair, expire_time = cache.get(key, default=None, expire_time=True)
+                    left = None if expire_time is None else expire_time - clock.now_peek()
+                    res.count('recomputed_entries_inspected')
+                    if pair is None or left is None or not 50 < left <= 100.001:
+                        res.violation('after the early recomputation of %r%r finished, its entry %s (the decorator was given '
+                                      'expire=100)' % (first, fkw, 'is gone' if pair is None else 'expires in %r s' % (left,)), wit)
     finally:
         probe.set_clock(None)
         cache.close()
